@@ -57,6 +57,14 @@ func H_k_enc_type() {
 	}
 	var e *TypeEncoder
 	var err error
+	if vParamDef("both", 0) == 1 {
+		// the other byte order was requested first for the same type (encoders must not be confused)
+		if big {
+			NewTypeEncoder(zero)
+		} else {
+			NewTypeEncoderEndian(zero, vBigEndian())
+		}
+	}
 	if big {
 		e, err = NewTypeEncoderEndian(zero, vBigEndian())
 	} else {
@@ -68,6 +76,24 @@ func H_k_enc_type() {
 	}
 	enc := e.Encode(v)
 	vAssert(len(enc) == packed, "type.sizes.len")
+	// the configured byte order reaches encoding/binary (scalars: compare with the shifts)
+	if typ <= 1 && len(enc) == packed {
+		var bits uint64
+		if typ == 0 {
+			bits = uint64(uint32(v.(int32)))
+		} else {
+			bits = v.(uint64)
+		}
+		okL := true
+		for k := 0; k < packed; k++ {
+			at := k
+			if big {
+				at = packed - 1 - k
+			}
+			okL = vAnd(okL, enc[at] == byte(bits>>(8*uint(k))))
+		}
+		vAssert(okL, "type.layout.byteorder")
+	}
 	vAssert(e.GetSize(v) == len(enc), "type.sizes.getsize")
 	buf := append(append([]byte{}, enc...), vBytes("junk", njunk)...)
 	vAssert(e.GetEncodedSize(buf) == len(enc), "type.sizes.encodedsize")
